@@ -16,6 +16,22 @@ CHECKS = {
             'Trusted: vlib/refmodel.py (reference semantics), vlib/bql.py (printer, typing table), CPython arithmetic on '
             'int/Decimal/date. Cases where the reference arithmetic is undefined are discarded and counted.',
             'DESIGN.md section 4, C01'),
+    'C02': ('enumerated aggregate x argument-type x key-form matrix + Hypothesis aggregate-query generation vs reference model; metamorphic additivity on engine results',
+            'Aggregate SELECTs with 0..3 grouping keys given by expression / output name / position / hidden / implicitly, '
+            'all aggregates over all admissible argument types with arithmetic on top, WHERE and HAVING, are compared '
+            '(rows in order of first appearance, type-strict cells, datatypes) with a reference partition-and-fold model; '
+            'independently, per-group count/sum results must add up to ungrouped totals and a second key must refine the '
+            'first. Bounded tables (<= 8 rows, value pools <= 5), sampled.',
+            'Trusted: vlib/refmodel.py fold/partition semantics; exact decimal arithmetic (no division) in the additive part.',
+            'DESIGN.md section 4, C02'),
+    'C03': ('enumerated direction-pattern x key-form matrix + Hypothesis generation vs reference pipeline; model-free chain (permutation, sortedness with NULL lowest, stability via row ids, DISTINCT/LIMIT as dedup/prefix) on engine results',
+            'All ASC/DESC patterns of 1..3 keys in every key form over a table with ties and NULLs in each key (exhaustive '
+            'over that table), random aggregate and non-aggregate queries with ORDER BY / DISTINCT / LIMIT against the '
+            'reference pipeline, and a two-directional model-free check: the ordered result is a permutation of the '
+            'unordered one, ordered under the stated comparison, stable, and DISTINCT/LIMIT are first-occurrence dedup and '
+            'prefix. LIMIT probed up to 10^30.',
+            'Trusted: vlib/refmodel.py (one stable pass per key), Python sort; sort keys limited to comparable scalars.',
+            'DESIGN.md section 4, C03'),
     'C06': ('Hypothesis AST generation -> print in canonical and redundant styles -> parse round trip (deep type-strict equality); differential shipped parser vs grammar-compiled parser on valid and mutated texts',
             'Round trip over generated statement ASTs of all four kinds with every clause, operator nesting pair, literal '
             'form and identifier spelling, in three printing styles each; plus a differential run of the shipped parser '
